@@ -15,6 +15,7 @@ Template directives (lines starting with `//@`):
   //@ closure <n> <new head>   replace the head `|..|` of the n-th closure, following lines are its spec
   //@ after "<stmt text>"      following lines are inserted after the (unique) statement text
   //@ before "<stmt text>"     same, before
+  //@ after-loop <n>           following lines are inserted after the closing brace of the n-th loop
   //@ subst "<old>" => "<new>" [count=<k>]   literal replacement in the body, site count checked (logged as R-local)
   //@ end
 
@@ -346,6 +347,7 @@ class FnDirective:
         self.loops = {}      # n -> (iter, lines)
         self.closures = {}   # n -> (head, lines)
         self.after = []      # (text, lines, 'after'|'before')
+        self.after_loop = {}  # n -> lines (inserted after the closing brace of the n-th loop)
         self.substs = []     # (old, new, count)
         self.norules = set()
 
@@ -433,6 +435,12 @@ def apply_fn(d, log, fnmap, out_lineno):
             # first ` in ` at depth 0 after the pattern
             edits.append((m.end(), m.end(), ' ' + itname + ':'))
         edits.append((bo, bo, clause))
+    for n, lines in d.after_loop.items():
+        if n < 1 or n > len(loops):
+            raise Undecided('lost anchor: loop %d of %s (has %d loops)' % (n, d.spec, len(loops)))
+        kw, ks, bo = loops[n - 1]
+        be = rs.match_close(body, bk, bo)
+        edits.append((be + 1, be + 1, '\n' + '\n'.join(lines) + '\n'))
     closures = rs.find_closures(body, bk, 1, len(body) - 1)
     for n, (head, lines) in d.closures.items():
         if n < 1 or n > len(closures):
@@ -610,8 +618,12 @@ def field_mirror(args, log):
         decls.extend(d)
         names.append(m.group(3))
         lines.append('    pub %s: %s,' % (m.group(3), ty))
-    text = '\n'.join(decls + ['pub struct %s {' % name] + lines + ['}']) + '\n'
-    log.taken.append({'item': '%s-%s/%s::%s' % (crate, ver, relfile, struct), 'kind': 'fieldmirror', 'fields': names})
+    derive = []
+    md = re.search(r'#\[derive\(([^)]*)\)\]', it.attrs())
+    if md and re.search(r'\bCopy\b', md.group(1)):
+        derive = ['#[derive(Clone, Copy)]']   # keep Copy: by-value reuse of fields must type-check as in the real code
+    text = '\n'.join(decls + derive + ['pub struct %s {' % name] + lines + ['}']) + '\n'
+    log.taken.append({'item': '%s-%s/%s::%s' % (crate, ver, relfile, struct), 'kind': 'fieldmirror', 'fields': names, 'copy': bool(derive)})
     return text, names
 
 
@@ -666,6 +678,9 @@ def expand(template_path, out_path, extra_tail=''):
                         m = re.match(r'loop\s+(\d+)(\s+iter\s+(\w+))?', c2)
                         cur = []
                         d.loops[int(m.group(1))] = (m.group(3), cur)
+                    elif c2.startswith('after-loop '):
+                        cur = []
+                        d.after_loop[int(c2.split()[1])] = cur
                     elif c2.startswith('closure '):
                         m = re.match(r'closure\s+(\d+)\s+(.*)$', c2)
                         cur = []
